@@ -1,10 +1,10 @@
 (* K-val and K-ops channels on the model. *)
 From Coq Require Import Strings.String.
-From BP7 Require Import Base.Prelude Base.Decimal Gen.Consts Model.Hex Model.Types Model.Encode Model.Decode Model.Validate Model.Ops Model.DtnTime.
+From BP7 Require Import Base.Prelude Base.Decimal Gen.Consts Model.Hex Model.Types Model.Encode Model.Decode Model.Validate Model.Ops Model.DtnTime Model.EidText.
 From BP7 Require Import Run.Proto Run.BundleIO.
 
 Definition show_validity (b : bundle) : list byte :=
-  match validate b with [] => S_ "VALID" | l => join [S_ "INVALID"; show_N (Nlen l)] end.
+  match Validate.validate b with [] => S_ "VALID" | l => join [S_ "INVALID"; show_N (Nlen l)] end.
 
 (* VALIDATE x<bytes> -> VALID | INVALID <n errors> | DECERR *)
 Definition run_validate (args : list tok) : list byte :=
@@ -60,9 +60,14 @@ Definition previous_node (b : bundle) : option eid :=
 Definition query (m : ovf_mode) (clock : N) (b : bundle) : res (list byte) :=
   do ltx <- is_lifetime_exceeded m clock (b_primary b);
   do ts <- timestamp_to_string (p_time (b_primary b)) (p_seq (b_primary b));
-  Ok (join [S_ "CRC"; show_bool (crc_valid b); S_ "ADM"; show_bool (is_admin_record b);
-            S_ "PREV"; match previous_node b with Some e => show_eid e | None => S_ "-" end;
-            S_ "LTX"; show_bool ltx; S_ "TS"; show_bytes ts]).
+  let opt o := match o with Some x => show_bytes x | None => S_ "-" end in
+  let acc (e : eid) := join [S_ "E"; show_bytes (eid_print e); opt (node e); opt (node_id e); opt (EidText.service_name e);
+                             show_bool (is_node_id e); show_bool (is_non_singleton e)] in
+  let eids := [p_dst (b_primary b); p_src (b_primary b); p_rpt (b_primary b)]
+              ++ match previous_node b with Some e => [e] | None => [] end in
+  Ok (join ([S_ "CRC"; show_bool (crc_valid b); S_ "ADM"; show_bool (is_admin_record b);
+             S_ "PREV"; match previous_node b with Some e => show_eid e | None => S_ "-" end;
+             S_ "LTX"; show_bool ltx; S_ "TS"; show_bytes ts] ++ map acc eids)).
 
 (* one step: new bundle and the textual return value of the operation *)
 Definition step (m : ovf_mode) (clock : N) (b : bundle) (o : op) : res (list byte * bundle) :=
